@@ -2,6 +2,7 @@ package main
 
 import (
 	"context"
+	"errors"
 	"fmt"
 	"io"
 	"math/rand"
@@ -17,6 +18,34 @@ import (
 )
 
 const stepTimeout = 4 * time.Second
+
+var errCause = errors.New("user navigated away")
+
+// clientMD is what the client does with metadata a stream hands it: note it down, then use
+// the map as its own (overwrite, add).  Nothing of that may show in a later read, nothing
+// the handler did to its own maps may show here.
+func clientMD(t *Transcript, md metadata.MD) MD {
+	a := absMD(md)
+	for _, v := range append(append([]int{}, a.A...), a.B...) {
+		switch v {
+		case 98, 99:
+			noteAlias(t, "handler-write-seen-in-client-metadata")
+		case 96, 97:
+			noteAlias(t, "client-write-seen-in-later-metadata-read")
+		}
+	}
+	scribbleMD(md, "97", "96")
+	return a
+}
+
+func noteAlias(t *Transcript, what string) {
+	for _, a := range t.Alias {
+		if a == what {
+			return
+		}
+	}
+	t.Alias = append(t.Alias, what)
+}
 
 // timedOut waits for d and then reports whether ready still has nothing to offer: after a
 // stall of the whole process both the timer and the awaited event are due, and the event wins.
@@ -82,8 +111,8 @@ type cres struct {
 	op   string
 	err  error
 	got  proto.Message // received message (recv / invoke)
-	hdr  MD
-	trl  MD
+	hdr  metadata.MD // as handed out by the stream / call option
+	trl  metadata.MD
 	hang bool
 }
 
@@ -125,10 +154,30 @@ func runOnce(e *env, tr string, conn grpc.ClientConnInterface, c Case, rng *rand
 	base := metadata.NewOutgoingContext(context.Background(), metadata.Pairs("x-call", id, "x-req", strconv.Itoa(c.Req)))
 	var ctx context.Context
 	var cancel context.CancelFunc
-	if c.Dl {
+	// x = 1 on the cancel / deadline step: the caller's context carries a cause of its own
+	// (WithCancelCause / WithTimeoutCause); a connection reports the class, never the cause
+	withCause := false
+	for _, st := range c.Steps {
+		if (st.C == "cancel" || st.C == "deadline") && st.X == 1 {
+			withCause = true
+		}
+	}
+	endCall := func() {} // the script's cancel step
+	switch {
+	case c.Dl && withCause:
+		ctx, cancel = context.WithTimeoutCause(base, timeout, errCause)
+		endCall = cancel
+	case c.Dl:
 		ctx, cancel = context.WithTimeout(base, timeout)
-	} else {
+		endCall = cancel
+	case withCause:
+		var cc context.CancelCauseFunc
+		ctx, cc = context.WithCancelCause(base)
+		cancel = func() { cc(nil) }
+		endCall = func() { cc(errCause) }
+	default:
 		ctx, cancel = context.WithCancel(base)
+		endCall = cancel
 	}
 	defer cancel()
 
@@ -181,11 +230,12 @@ func runOnce(e *env, tr string, conn grpc.ClientConnInterface, c Case, rng *rand
 				logf(i, "c", r.op, "%v", r.err)
 			}
 			if singleResponse(c.Shape) {
-				t.Trls = append(t.Trls, r.trl)
+				t.Trls = append(t.Trls, clientMD(&t, r.trl))
 			}
 		case "header":
-			t.Hdrs = append(t.Hdrs, r.hdr)
-			logf(i, "c", r.op, "%v err=%v", r.hdr, r.err)
+			h := clientMD(&t, r.hdr)
+			t.Hdrs = append(t.Hdrs, h)
+			logf(i, "c", r.op, "%v err=%v", h, r.err)
 		case "invoke":
 			if r.err == nil {
 				v := valOf(r.got)
@@ -193,9 +243,10 @@ func runOnce(e *env, tr string, conn grpc.ClientConnInterface, c Case, rng *rand
 				crecvd = append(crecvd, r.got)
 			}
 			setFailure(r.err)
-			t.Hdrs = append(t.Hdrs, r.hdr)
-			t.Trls = append(t.Trls, r.trl)
-			logf(i, "c", r.op, "%v hdr=%v trl=%v", r.err, r.hdr, r.trl)
+			h, tl := clientMD(&t, r.hdr), clientMD(&t, r.trl)
+			t.Hdrs = append(t.Hdrs, h)
+			t.Trls = append(t.Trls, tl)
+			logf(i, "c", r.op, "%v hdr=%v trl=%v", r.err, h, tl)
 		}
 	}
 	await := func(i int, ch chan cres, op string) {
@@ -273,7 +324,7 @@ func runOnce(e *env, tr string, conn grpc.ClientConnInterface, c Case, rng *rand
 					reply := newRespEmpty(c.Shape)
 					var h, tl metadata.MD
 					err := conn.Invoke(ctx, methodName(c.Shape), req, reply, grpc.Header(&h), grpc.Trailer(&tl))
-					ch <- cres{op: "invoke", err: err, got: reply, hdr: absMD(h), trl: absMD(tl)}
+					ch <- cres{op: "invoke", err: err, got: reply, hdr: h, trl: tl}
 				}()
 			case "send":
 				if stream == nil {
@@ -308,7 +359,7 @@ func runOnce(e *env, tr string, conn grpc.ClientConnInterface, c Case, rng *rand
 					r := cres{op: "recv", err: err, got: m}
 					if single {
 						// a client-streaming client reads the trailer as soon as CloseAndRecv returns
-						r.trl = absMD(s.Trailer())
+						r.trl = s.Trailer()
 					}
 					ch <- r
 				}()
@@ -322,7 +373,7 @@ func runOnce(e *env, tr string, conn grpc.ClientConnInterface, c Case, rng *rand
 				ch, s := pend, stream
 				go func() {
 					md, err := s.Header()
-					ch <- cres{op: "header", err: err, hdr: absMD(md)}
+					ch <- cres{op: "header", err: err, hdr: md}
 				}()
 			case "trailer":
 				if stream == nil {
@@ -330,11 +381,11 @@ func runOnce(e *env, tr string, conn grpc.ClientConnInterface, c Case, rng *rand
 					logf(i, "c", "trailer", "nostream")
 					break
 				}
-				md := absMD(stream.Trailer())
+				md := clientMD(&t, stream.Trailer())
 				t.Trls = append(t.Trls, md)
 				logf(i, "c", "trailer", "%v", md)
 			case "cancel":
-				cancel()
+				endCall()
 			case "deadline":
 				select {
 				case <-ctx.Done():
